@@ -8,12 +8,15 @@ import ecc_file_x as fx
 import ecc_scen as es
 import ecc_util as eu
 
-LEAN_MODULES = ["Pff.Props.C13", "Pff.Props.C14"]
+LEAN_MODULES = ["Pff.Props.C13", "Pff.Props.C14", "Pff.Props.RunB"]
 PROP_MODULE = "Pff.Props.C13"
 THEOREMS = ["Pff.Ecc.C13_cut_block_safe", "Pff.Ecc.C13_assemble_prefix_whole", "Pff.Ecc.C13_assemble_prefix_header", "Pff.Ecc.C13_loop_prefix", "Pff.Ecc.C13_length",
-            "Pff.Ecc.C04_length_header", "Pff.Ecc.C04_length_whole"]
+            "Pff.Ecc.C04_length_header", "Pff.Ecc.C04_length_whole",
+            "Pff.Run.C13_run_cut_prefix",
+            "Pff.Run.C13_run_output_length"]
 MODELLED = [("pyFileFixity/header_ecc.py", "main"), ("pyFileFixity/structural_adaptive_ecc.py", "main"),
             ("pyFileFixity/lib/aux_funcs.py", "get_next_entry")]
+MODELLED = sorted(set(MODELLED + fx.WHOLE_RUN_MODELLED))
 TRUSTED_BASE = [
     "Lean 4.33.0 kernel; axioms per theorem under coverage.theorems (subset of propext, Classical.choice, Quot.sound)",
     "PROVED PART: on a truncated track (any cut offset) the blocks whose hash+parity lie wholly before the cut are assembled and handled "
@@ -32,7 +35,7 @@ RULE = ("trees of 2-4 files with some files damaged within capacity, both tools;
 
 def run(oc, tier, seed, model_available, escalate):
     rng = random.Random(seed * 1000003 + 13)
-    n = 4 if tier == "quick" else 60
+    n = 12 if tier == "quick" else 200
     if escalate:
         n *= 2
     d = os.path.join(common.scratch(), "c13")
@@ -123,6 +126,11 @@ def run(oc, tier, seed, model_available, escalate):
                             impl.append(res["reply"])
         if it % max(1, n // 3) == 0:
             oc.sample({"params": P.describe(), "tree": {k: len(v) for k, v in tree.items()}, "cuts": len(cuts), "ecc_len": len(data)})
+    # ---- whole-run correspondence: complete `-c` runs replayed into the Lean model of the correction loop (Pff.Run.run)
+    os.makedirs(d, exist_ok=True)
+    wl, wi = fx.whole_run_cases(rng, (40 if tier == "quick" else 300) * (2 if escalate else 1), ["cut"], d, oc)
+    lines += wl
+    impl += wi
     shutil.rmtree(d, ignore_errors=True)
     if model_available:
         model, err = common.run_driver(lines)
